@@ -62,6 +62,14 @@ func (ex *Exec) lvalueLocs(env *SpecEnv, e ast.Expr) []modLoc {
 		}
 	case *ast.ParenExpr:
 		return ex.lvalueLocs(env, x.X)
+	case *ast.CallExpr:
+		// closed(ch): the closedness of channel ch; closed(any): of every channel
+		if id, ok := x.Fun.(*ast.Ident); ok && id.Name == "closed" && len(x.Args) == 1 {
+			if a, ok := x.Args[0].(*ast.Ident); ok && a.Name == "any" {
+				return []modLoc{{class: chanClosedClass, anyObj: true}}
+			}
+			return []modLoc{{class: chanClosedClass, ref: env.eval(x.Args[0]).V.(Scalar).T}}
+		}
 	case *ast.SelectorExpr:
 		// any(T).f: field f of every object of type T
 		if call, ok := x.X.(*ast.CallExpr); ok {
@@ -267,6 +275,26 @@ func (ex *Exec) checkFrameMap(st *State, t types.Type, ref *Term, pos token.Pos)
 		}
 	}
 	ex.emit(st, "frame", ex.srcLabel(st.top().Fn, pos, "mapwrite:"+class), Or(alts...), pos, top.Spec.Props)
+}
+
+// checkFrameChan: closing a channel needs closed(ch) (or '*') in the modifies clause, unless the channel is fresh.
+func (ex *Exec) checkFrameChan(st *State, ch *Term, pos token.Pos) {
+	top := ex.topFrame(st)
+	if top.Spec == nil || top.Spec.ModAll || ex.pure != nil || st.Fresh[ch] {
+		return
+	}
+	alts := []*Term{Lt(top.EntryFull.Frontier, ch)}
+	for _, m := range top.Mods {
+		if m.class == chanClosedClass {
+			if m.anyObj {
+				return
+			}
+			if m.ref != nil {
+				alts = append(alts, Eq(ch, m.ref))
+			}
+		}
+	}
+	ex.emit(st, "frame", ex.srcLabel(st.top().Fn, pos, "close"), Or(alts...), pos, top.Spec.Props)
 }
 
 func (ex *Exec) checkImmutable(st *State, p *PtrV, pos token.Pos) {
@@ -794,6 +822,10 @@ func (ex *Exec) staticModClasses(sp *FuncSpec, fn *ssa.Function, sig *types.Sign
 	case *ast.Ident:
 		if strings.HasPrefix(x.Name, "ghost_") {
 			return []string{"G:$" + strings.TrimPrefix(x.Name, "ghost_")}
+		}
+	case *ast.CallExpr:
+		if id, ok := x.Fun.(*ast.Ident); ok && id.Name == "closed" {
+			return []string{chanClosedClass}
 		}
 	case *ast.SelectorExpr:
 		bt := typeOf(x.X)
